@@ -30,6 +30,15 @@ from oqupy.util import check_true
 class BaseCorrelations(BaseAPIClass):
     """Base class for environment auto-correlations. """
 
+    def __setattr__(self, name, value):
+        """Set an attribute and forget all memoized integrals, because they
+        depend on the attributes (coupling strength, temperature, ...). """
+        super().__setattr__(name, value)
+        for method_name in ('eta_function', 'correlation_2d_integral'):
+            method = getattr(type(self), method_name, None)
+            if hasattr(method, 'cache_clear'):
+                method.cache_clear()
+
     def correlation(
             self,
             tau: ArrayLike,
